@@ -108,6 +108,39 @@ class CalSpec(Spec):
                         seen.add("cal hjd %s %d %d" % (cfg, s, s + BLOCK))
                     reqs += sorted(seen)
             sts.append(Stream("cal-days", reqs, weight=_weight, refine=refine))
+            # single conversions in RANDOM order, one process per configuration: an answer that depends on the
+            # calls made before it (a memo keyed wrongly, a cache that is not cleared) differs from the
+            # stateless model. Half the days come from small hot sets (table seams, cycle ends, year starts)
+            # so that particular pairs of consecutive questions occur often.
+            groups = []
+            n = 2500 if tier == "quick" else 40000
+            for cfg in CFGS:
+                hot = []
+                for s0 in SPECIAL_JDS:
+                    hot += [s0 + k for k in range(-2, 35)]
+                hot += list(range(2453440, 2453475)) + list(range(2459670, 2459765))
+                g = []
+                for _ in range(n):
+                    r = rng.random()
+                    if r < 0.35:
+                        jd = rng.choice(hot)
+                    elif r < 0.7:
+                        jd = rng.randrange(2453300, 2459900)
+                    elif r < 0.85 and g:
+                        jd = int(g[-1].split()[-1]) + rng.choice([-1, 1, -29, -30, 29, 30, 354, 355, 365, 366, -354, -365, 0])
+                    else:
+                        jd = rng.randrange(LO, HI)
+                    g.append("cal jdto %s %d" % (cfg, jd))
+                # … and EVERY ordered pair of a small set of days (the start of the hijri month table, days next
+                # to cycle ends, random days): question P, then question Q
+                hs = list(range(2453440, 2453475)) + [s0 + k for s0 in SPECIAL_JDS[:4] for k in (-1, 0, 1)]
+                hs += [rng.randrange(2453475, 2459700) for _ in range(40 if tier == "quick" else 160)]
+                for pj in hs:
+                    for qj in hs:
+                        g.append("cal jdto %s %d" % (cfg, pj))
+                        g.append("cal jdto %s %d" % (cfg, qj))
+                groups.append(g)
+            sts.append(Stream("cal-random-order", None, groups=groups))
         if "ym" in self.kinds:
             reqs = []
             for cfg in CFGS:
